@@ -371,9 +371,10 @@ Emit(m, a) ==
 EnterRoom(m, sid, room, ns) ==
     IF ~Has(m.s.rooms, ns) THEN Raise(m, "ValueError")
     ELSE LET N  == m.s.rooms[ns]
-             N1 == IF Has(N, room) THEN N ELSE Put(N, room, <<>>)   \* the room is created first
-         IN  IF ~Has(Get(N, "None", <<>>), sid)
-             THEN Raise([m EXCEPT !.s.rooms = Put(@, ns, N1)], "KeyError")
+         IN  \* the client is looked up before anything is created (D13, fixed: the room used to
+             \* be created first and stayed behind, empty, when the lookup failed)
+             IF ~Has(Get(N, "None", <<>>), sid)
+             THEN Raise(m, "KeyError")
              ELSE [m EXCEPT !.s.rooms = EnterRooms(@, ns, room, sid, N["None"][sid])]
 
 LeaveRoom(m, sid, room, ns) ==
